@@ -299,6 +299,7 @@ func (n *NodeProcessor) SendWrite() (int, error) {
 			// The head segment has been read to its end: move on to the next segment if
 			// there is one. (Not Advance: a block appended since Current was called would
 			// be skipped without ever having been read.)
+			verifPoint("sendwrite.eof")
 			if err := n.queue.skipDrainedHead(); err != nil {
 				n.Logger.Error("Failed to advance queue", zap.Uint64("node", n.nodeID), zap.Uint64("shardID", n.shardID), zap.Error(err))
 			}
